@@ -231,7 +231,16 @@ def check_case(case):
         code = 0
         try:
             guard.silence_stdout()
-            references(seed)
+            try:
+                references(seed)
+            except Exception as e:
+                # the plain calls fail in the pristine (never set up) logger state: that IS a dependence on the logger state
+                out = fresh()
+                out['nodes'] = 1
+                out['viols']['call-fails-before-set-up'] = (1, [], 'a sift variant called without any logging set-up raised %r ##HIST[]' % (e,))
+                with os.fdopen(w, 'wb') as f:
+                    pickle.dump(out, f)
+                os._exit(0)
             st = {'setup': False, 'level': None, 'disabled': False}
             hist = []
             if root == 'set-up':
@@ -288,12 +297,18 @@ def check_history(case):
         os.close(r)
         try:
             guard.silence_stdout()
-            references(seed)
+            viols = []
+            try:
+                references(seed)
+            except Exception as e:
+                viols.append(('call-fails-before-set-up', 'a sift variant called without any logging set-up raised %r' % (e,)))
+                with os.fdopen(w, 'wb') as f:
+                    pickle.dump(viols, f)
+                os._exit(0)
             st = {'setup': False, 'level': None, 'disabled': False}
             if root == 'set-up':
                 emd.logger.set_up()
                 st = model_step(st, ('set_up', None))
-            viols = []
             with forkpool.installed(forkpool.SerialMP()):
                 for pos, op in enumerate(hist):
                     op = (op[0], op[1])
